@@ -85,11 +85,21 @@ def check_plane_roundtrips(c, P, e):
         else:
             r = lib.call(lambda: Plane(Point(pm[0]), pm[1], pm[2]))
             c.same_plane('Plane(parametric)', r, e, P)
+    # P has been used by now (membership, ==, general_form): its negation must still be the same point set
+    lib.call(lambda: P.p in P)
     ng = lib.call(lambda: -P)
     if c.same_plane('neg', ng, e, None):
         a, b = lib._c(ng.n), lib._c(P.n)
         if not lib._close(a, X.neg(b), 1e-9):
             c.bad('neg', 'normal-not-opposite', lib.describe(X.neg(b)), ng)
+        q = lib.call(lambda: (P.p in ng) and (ng.p in P) and (ng == P) and (P == ng))
+        if q is not True:
+            c.bad('neg', 'negation-loses-the-points-of-the-plane', True, q)
+        gf = lib.call(ng.general_form)
+        if isinstance(gf, lib.Raised):
+            c.bad('neg.general_form', 'raises:' + gf.cls, 'tuple', gf)
+        else:
+            c.same_plane('Plane(*(-P).general_form())', lib.call(lambda: Plane(*gf)), e, None)
 
 
 def eval_scene(fam, scene):
